@@ -92,7 +92,26 @@ def make_wfn(norb, mode, n, sz, vec=None):
     return wfn
 
 
-def set_state(wfn, vec):
+# arrays handed to set_wfn(strategy='from_data') are kept (with a pristine byte copy) so that a check can ask later
+# whether the library modified the CALLER's data (assignment must be by value)
+_SOURCES = []
+
+
+def reset_sources():
+    del _SOURCES[:]
+
+
+def modified_sources():
+    bad = []
+    for n, (data, snap) in enumerate(_SOURCES):
+        for key in data:
+            if data[key].tobytes() != snap[key]:
+                bad.append('array #%d passed to set_wfn(from_data) for sector %s was modified afterwards' % (n, list(map(int, key))))
+    return bad
+
+
+def set_state(wfn, vec, also=()):
+    """set wfn (and the wavefunctions in `also`, from the SAME dict of arrays) to the sparse state vec"""
     import numpy
     data = {}
     for key in wfn.sectors():
@@ -105,7 +124,10 @@ def set_state(wfn, vec):
         key = (na + nb, na - nb)
         g = wfn.sector(key).get_fcigraph()
         data[key][g.index_alpha(a), g.index_beta(b)] = complex(re, im)
+    _SOURCES.append((data, {k: v.tobytes() for k, v in data.items()}))
     wfn.set_wfn(strategy='from_data', raw_data=data)
+    for w in also:
+        w.set_wfn(strategy='from_data', raw_data=data)
 
 
 def read_state(wfn, tol=0.0):
